@@ -20,6 +20,14 @@ order.  Run-time postcondition on MoleculeResolver.resolve() for the overlapping
   (e) hydrogens: C09's per-atom check (specs.valence.check_valence) - a hydrogen of a shared atom carries the
       shared atom's membership.
 
+Family 'ML' (two levels of `!` in ONE resolver, blocks . beads . atoms): the bead graph that an overlapping atom-level
+description O(M) defines is itself cut into blocks, bead-level cuts are replaced by shared beads (`#X1=[#A][#B][!A],
+#X2=[!A][#B][#D]`), and MoleculeResolver.resolve_iter() resolves both levels.  Level 1 must give every bead once with the
+blocks that list it as fragid and the bead graph of O(M); level 2 must satisfy (a), (c), (d), (e) above (membership read
+through the unique bead names), leave no `!` pair behind as a bond, and give the same molecule as the one-level description
+with the same atom-level fragments (fresh resolver) and as the three-level description without any `!` (metamorphic (b)).
+Aliphatic tree molecules only, every bead-graph / block-graph edge of order 1, blocks are trees of beads.
+
 Scope decisions: molecules, renderings and base graphs as in C01 (see props/C01.py); a second cut bond between a shared
 atom and the fragment that already holds its copy becomes a bond of that same copy (one copy of an atom per fragment);
 ordinary descriptors of a shared atom stay on the original atom.  Cases whose base-graph text is not read as
@@ -43,6 +51,9 @@ BUDGET = {'quick': 33.0, 'thorough': 420.0}
 CHUNK = 50
 BOUNDS = {
     'quick': {
+        'familyML': 'OCCN cut into 3 or 4 beads in every way x every share assignment of the atom-level cuts x every 2nd (3 beads) / 12th (4 beads) '
+                    'of {partition of the bead tree into >= 2 blocks x share assignment of the bead-level cuts, >= 1 shared}; 9 further '
+                    'aliphatic molecules with 5-7 heavy atoms, 3-4 beads: seeded 8 % sample, one level-1 description each (565 cases at seed 0)',
         'blockA': 'carbon skeletons and 14 ring / hetero probes <= 4 heavy atoms + every C N O molecule <= 3 heavy atoms; every '
                   'partition with a cut; every assignment {ordinary, share end 0, share end 1} to the cut bonds (at least one '
                   'shared); with and without the pairwise "triangle" marking when an atom is copied into >= 2 fragments; '
@@ -52,13 +63,16 @@ BOUNDS = {
         'thinning': 'molecules with 4 heavy atoms: one rendering and one base-graph order per share assignment',
         'shared_pairs_per_case': '1..6'},
     'thorough': {
+        'familyML': '10 aliphatic molecules (4-7 heavy atoms) cut into 3-5 beads in every way x every atom-level share assignment x '
+                    '{every level-1 description for OCCN, 4 seeded ones for the others}',
         'blockA': 'as quick plus every C N O Cl [N+] [O-] molecule with <= 3 and every C N O molecule with 4 heavy atoms; 3 renderings up to 3 atoms, 2 for 4 atoms',
         'blockB': '43 library molecules x 30 seeded partitions x 6 seeded share subsets',
         'blockC': 'ladder molecules (2-4 bonds between two fragments, some double): every assignment with >= 2 shared atoms',
         'shared_pairs_per_case': '1..8'},
 }
 EXHAUSTIVE = {'quick': False, 'thorough': False}
-RULE = ('molecule x partition x subset of cut bonds replaced by a shared atom (which end is copied) x triangle marking x rendering '
+RULE = ('family ML first (see docstring: the same construction applied twice, atoms -> beads -> blocks), then '
+        'molecule x partition x subset of cut bonds replaced by a shared atom (which end is copied) x triangle marking x rendering '
         'x base-graph node order; exhaustive blocks are independent of the seed; every case is non-trivial (it contains at least '
         'one `!` pair that has to be contracted); distinct = distinct CGsmiles text')
 ASSUMPTIONS = base.ASSUMPTIONS + ['networkx.contracted_nodes is not verified']
@@ -159,9 +173,56 @@ def _block_c(rng):
             yield {'fam': 'C', 'mol': mol, 'part': part, 'shares': shares, 'tri': False, 'r': r}
 
 
+# ---- family 'ML': `!` on two successive levels of ONE resolver (blocks . beads . atoms)
+ML_MOLS = ['OCCN', 'OCCCN', 'CC(=O)CCO', 'OCC(C)CN', 'NCC(O)CS', 'CCOCCN', 'OC(=O)CCCN', 'ClCCC(F)CO', 'C=CCC(N)CO', 'C[N+](C)(C)CCO']
+
+
+def _ml_level1(nb, bead_edges):
+    """(part1, shares1) pairs: every partition of the bead tree into >= 2 connected blocks, every assignment
+    {ordinary, share end 0, share end 1} to the cut bead edges with at least one shared bead"""
+    beadmol = {'a': [['X', 0, 0]] * nb, 'b': [[u, v, 1] for u, v in bead_edges]}
+    for part1 in g2.connected_partitions(beadmol):
+        if max(part1) < 1:
+            continue
+        for shares1 in share_assignments(beadmol, part1):
+            yield part1, shares1
+
+
+def _ml_cases(tier, seed):
+    quick = tier == 'quick'
+    rng = random.Random(seed * 104729 + 11)
+    for mi, smi in enumerate(ML_MOLS):
+        mol = g2.parse_smiles(smi)
+        n = 0
+        for part in g2.connected_partitions(mol):
+            nb = max(part) + 1
+            if not 3 <= nb <= (4 if quick else 5):
+                continue
+            bead_edges = sorted({(min(part[u], part[v]), max(part[u], part[v])) for u, v, _ in mol['b'] if part[u] != part[v]})
+            lvl1 = list(_ml_level1(nb, bead_edges))
+            for shares in share_assignments(mol, part):
+                # the first molecule: every (thorough) / every 2nd (3 beads) and 12th (4 beads) level-1 description; the others a seeded sample
+                if mi == 0:
+                    step = 1 if not quick else (2 if nb == 3 else 12)
+                    picks = lvl1[(len(shares) + n) % step::step]
+                else:
+                    picks = rng.sample(lvl1, min(len(lvl1), 1 if quick else 4)) if rng.random() < (0.08 if quick else 1.0) else []
+                for part1, shares1 in picks:
+                    n += 1
+                    nblk = max(part1) + 1
+                    r = next(g2.covering_renderings(mol, part, 1, rng)) if mi else {'starts': [0] * nb}
+                    base1 = list(range(nblk))
+                    if n % 2:
+                        base1.reverse()
+                    yield {'fam': 'ML', 'smiles': smi, 'mol': mol, 'part': part, 'shares': shares, 'part1': part1, 'shares1': shares1,
+                           'r': r, 'base1': base1, 'lead1': bool(n % 3 == 0),
+                           'starts1': [rng.randrange(4) for _ in range(nblk)] if mi else [0] * nblk}
+
+
 def cases(tier, seed):
     rng = random.Random(seed * 7368787 + 5)
     quick = tier == 'quick'
+    yield from _ml_cases(tier, seed)
     mols = _blockA_mols(tier)
     small = sorted([m for m in mols if len(m['a']) <= 3], key=lambda m: len(m['a']))
     large = [m for m in mols if len(m['a']) > 3]
@@ -202,7 +263,106 @@ def init_worker():
     import cgsmiles  # noqa: F401
 
 
+def check_two_level(case):
+    """family ML.  One resolver resolves blocks -> beads -> atoms, both steps with `!`:
+      level 1  every bead exists exactly once, the bead graph is the one the atom-level cut defines, a bead's fragid is the
+               set of blocks whose fragment lists it (construction);
+      level 2  (a) (c) (d) (e) as for the one-level description, membership read through the bead *names* (unique);
+               (b) same molecule as the one-level description beads.atoms (same atom-level fragments, fresh resolver) and as
+               the description without any `!` on either level."""
+    from cgsmiles.resolve import MoleculeResolver
+    built = g2.build_two_level(case)
+    if built is None:
+        return Outcome(repr(case)[:200], False, [], skipped=True, note='outside the ML family (edge of order > 1 / block not a tree)')
+    text = built['two']
+    if not base.base_reads_as_intended(built) or not base.base_reads_as_intended(built['one_built']):
+        return Outcome(text, False, [], skipped=True, note='base-graph text is not read as the intended graph (C04 subject)')
+    api = 'MoleculeResolver.resolve_iter() on a three-level overlapping description'
+    fails = []
+    mol = case['mol']
+    plan1, plan2 = built['plan1'], built['plan2']
+
+    def fail(kind, detail, **kw):
+        fails.append(Failure(api, kind, detail, 'resolve/two-levels-of-shared-atoms/' + kind, text=text, **kw))
+
+    r = base.quiet(lambda: list(MoleculeResolver.from_string(text).resolve_iter()))
+    if r[0] != 'ok':
+        fail('resolver-exception', '%s -> %s: %s' % (text, r[1], r[2][:160]), traceback=r[3])
+        return Outcome(text, True, fails)
+    levels = r[1]
+    if len(levels) != 2:
+        fail('levels', '%s -> %d resolutions, expected 2' % (text, len(levels)))
+        return Outcome(text, True, fails)
+    # ---- level 1: the beads
+    beads = levels[0][1]
+    key0 = {blk: k for k, blk in enumerate(built['order0'])}
+    got_nodes = sorted((d.get('atomname'), tuple(sorted(d.get('fragid') or ()))) for _, d in beads.nodes(data=True))
+    want_nodes = sorted((built['beads'][b], tuple(sorted(key0[x] for x in plan1['member'][b]))) for b in built['beads'])
+    if got_nodes != want_nodes:
+        fail('level1-beads', '%s -> beads (name, fragid) %s ; expected %s' % (text, got_nodes, want_nodes))
+    got_edges = sorted(tuple(sorted((beads.nodes[u].get('atomname'), beads.nodes[v].get('atomname')))) + (d.get('order'),)
+                       for u, v, d in beads.edges(data=True))
+    want_edges = sorted(tuple(sorted((built['beads'][u], built['beads'][v]))) + (1,) for u, v in built['bead_edges'])
+    if got_edges != want_edges:
+        fail('level1-bead-graph', '%s -> bead edges %s ; expected %s' % (text, got_edges, want_edges))
+    # ---- level 2: the atoms
+    coarse, fine = levels[1]
+    h, probs = cc.heavy_view(fine)
+    if probs:
+        fail('hydrogen-topology', '%s -> %s' % (text, probs[:3]))
+        return Outcome(text, True, fails)
+    together = sum(len(f['atoms']) for f in plan2['frags'])
+    if h.number_of_nodes() != together - plan2['n_merge']:
+        fail('atom-count', '%s -> %d heavy atoms; the atom-level fragments contain %d together, %d `!` pairs'
+             % (text, h.number_of_nodes(), together, plan2['n_merge']))
+    want = cc.expected_heavy(mol)
+    for a in want.nodes:
+        want.nodes[a]['mem'] = tuple(sorted(built['beads'][f] for f in plan2['member'][a]))
+    for n in h.nodes:
+        h.nodes[n]['mem'] = tuple(sorted(str(coarse.nodes[k].get('fragname')) if k in coarse else '?%r' % (k,)
+                                         for k in set(h.nodes[n]['fragid'])))
+    if not cc.same_heavy(h, want, with_h=True):
+        kind = 'wrong-hydrogens' if cc.same_heavy(h, want, with_h=False) else 'wrong-molecule'
+        fail(kind, '%s -> %s ; expected (construction + valence table) %s' % (text, cc.summary(h), cc.summary(want)))
+    elif not cc.same_heavy(h, want, with_h=True, extra='mem'):
+        fail('wrong-membership', '%s -> beads per heavy atom %s ; expected %s'
+             % (text, sorted((d['element'], d['mem']) for _, d in h.nodes(data=True)),
+                sorted((d['element'], d['mem']) for _, d in want.nodes(data=True))))
+    leftovers = [(u, v) for u, v, d in fine.edges(data=True) if str((d.get('bonding') or ('',))[0]).startswith('!')]
+    if leftovers:
+        fail('squash-pair-left-as-bond', '%s -> `!` pairs %s are still two atoms joined by a bond' % (text, leftovers[:4]))
+    for k in coarse.nodes:
+        got = set(coarse.nodes[k].get('graph', ()))
+        exp = {n for n, d in fine.nodes(data=True) if k in (d.get('fragid') or ())}
+        if got != exp:
+            fail('coarse-graph-membership', '%s -> bead node %r graph nodes %s, fine nodes with that fragid %s' % (text, k, sorted(got), sorted(exp)))
+            break
+    vp = check_valence(fine)
+    if vp:
+        fail('valence-' + vp[0][0], '%s -> %s' % (text, [p[2] for p in vp[:3]]))
+    # ---- (b) metamorphic
+    if not any(f['kind'] in ('wrong-molecule', 'wrong-hydrogens') for f in fails):
+        r1 = base.quiet(lambda: MoleculeResolver.from_string(built['one']).resolve())
+        if r1[0] == 'ok':
+            h1, p1 = cc.heavy_view(r1[1][1])
+            if not p1 and not cc.same_heavy(h, h1, with_h=True):
+                fail('differs-from-one-level', '%s -> %s ; %s -> %s' % (text, cc.summary(h), built['one'], cc.summary(h1)), one_level=built['one'])
+        dcase = dict(case)
+        dcase['shares'] = []
+        dcase['shares1'] = []
+        dbuilt = g2.build_two_level(dcase)
+        if dbuilt is not None and base.base_reads_as_intended(dbuilt):
+            dr = base.quiet(lambda: list(MoleculeResolver.from_string(dbuilt['two']).resolve_iter()))
+            if dr[0] == 'ok' and len(dr[1]) == 2:
+                dh, dprobs = cc.heavy_view(dr[1][1][1])
+                if not dprobs and not cc.same_heavy(h, dh, with_h=True):
+                    fail('differs-from-disjoint', '%s -> %s ; %s -> %s' % (text, cc.summary(h), dbuilt['two'], cc.summary(dh)), disjoint=dbuilt['two'])
+    return Outcome(text, True, fails)
+
+
 def check_case(case):
+    if case.get('fam') == 'ML':
+        return check_two_level(case)
     built = g2.build(case)
     text = g2.describe(built)
     plan = built['plan']
